@@ -30,6 +30,8 @@ var c03Kids = []string{
 	`<a href="javascript:void(0)">%w <b>%x</b> %y</a> `,
 	`<font color="red">%w <b>%x</b> %y</font> `,
 	`<a href="/u">%w <i>%x</i></a> `,
+	`<span style="opacity:0.85">%w</span> <em style="opacity: .5; color:red">%x</em> `,
+	`<a class="related" href="/u">%w</a> <a class="sidebar" href="/v">%x</a> `, // links are exempt from unlikely-content pruning whatever their class
 }
 
 var c03Containers = [][2]string{
@@ -52,7 +54,9 @@ func (c *c03Sym) Count(s string) int {
 		return n
 	}
 	n := 0
-	if strings.TrimSpace(s) != "" {
+	if strings.Contains(s, "tailbig") {
+		n = 600 // a long article body: the first (pruning) extraction pass is the one used
+	} else if strings.TrimSpace(s) != "" {
 		n = vx.NondetInt("wc", 1, c.max)
 	}
 	c.memo[s] = n
@@ -88,7 +92,14 @@ func HarnessC03Paragraph() {
 	if cont[0] == "" && vx.Choose("alone", 2) == 1 {
 		tail = "" // the paragraph is all there is in <body>
 	}
-	page := "<html><head><title>T</title></head><body>" + cont[0] + body + cont[1] + tail + "</body></html>"
+	lead := ""
+	if vx.Param("bigtail", 0) == 1 && tail != "" {
+		// a long page that also has blocks marked as unlikely content with the
+		// class names some of the inline children carry
+		lead = `<div class="related"><p>rel words</p></div><div class="sidebar">side words</div>`
+		tail = "<div><p>tailbig words here</p></div>"
+	}
+	page := "<html><head><title>T</title></head><body>" + lead + cont[0] + body + cont[1] + tail + "</body></html>"
 	doc := vx.ParseHTML(page)
 	ce := NewContentExtractor(dom.QuerySelector(doc, "html"), nil, nil)
 	ce.WordCounter = &c03Sym{memo: map[string]int{}, max: vx.Param("maxwc", 100)}
